@@ -5,7 +5,7 @@ from common import *
 import blob_streams as BS
 
 MODULE = "Props.C16"
-THEOREMS = ["C16_archive_is_last_build", "C16_open_serves_archive_only", "C16_build_own_dataset", "C16_reader_serves_last_archive"]
+THEOREMS = ["C16_archive_is_last_build", "C16_open_serves_archive_only", "C16_build_own_dataset", "C16_reader_serves_last_archive", "C16_names_independent", "C16_name_own_step"]
 PARTIAL = ["file formats (zip, parquet, npy, json) are outside the model: an archive is its member list; corruption is 'the archive does not unpack'; "
            "that zipfile detects truncation / flipped member bytes is trusted and exercised (truncation at random lengths, flipped bytes inside member data)",
            "the content clause (only anonymized tables + metadata, no salt, no ids) is checked on real archives: member names, a syntactic check of the writers, and the "
@@ -122,6 +122,7 @@ def extraction(ctx):
 
 def run(ctx, built):
     BS.stream_histories(ctx, built, ctx.scale(10, 150))
+    BS.stream_two_names(ctx, built, ctx.scale(5, 60))
     content_oracle(ctx)
     two_readers_oracle(ctx)
     extraction(ctx)
@@ -130,5 +131,5 @@ def run(ctx, built):
 
 def search(ctx, seeds):
     sub = Ctx(ctx.pid, "quick", ctx.seed + 275604541)
-    BS.stream_histories(sub, False, 30); content_oracle(sub); two_readers_oracle(sub)
+    BS.stream_histories(sub, False, 30); BS.stream_two_names(sub, False, 12); content_oracle(sub); two_readers_oracle(sub)
     ctx.oracle_failures += sub.oracle_failures
